@@ -21,3 +21,4 @@ import GlareModel.Props.C09
 import GlareModel.Core.Like
 import GlareModel.Core.Str
 import GlareModel.Props.C20
+import GlareModel.Props.C05
